@@ -65,6 +65,25 @@ theorem inv_no_state {st : Table} (h : Inv st) (k : Nat) (t : Tcb) (hm : (k, t) 
 theorem http_parse_total (ps : HttpSt) (d : Bytes) (h : HttpInv ps) :
     ∃ ps', httpParse ps d = .ok ps' ∧ HttpInv ps' := httpParse_inv ps d h
 
+/-- `http::repl` never panics from a stored state and stores such a state again: the state reached by the
+    parser (`http_parse_total`) when the request is not complete yet; the INITIAL state once it has been
+    answered (`*pstate = ProtocolState::new()`, `C13.http_state_reset`) — for which the invariant holds
+    trivially (`httpInv_init`) -/
+theorem http_repl_total (env : Env) (ps : HttpSt) (d : Bytes) (h : HttpInv ps) :
+    ∃ ps' r, httpRepl env ps d = .ok (ps', r) ∧ HttpInv ps' ∧ (r ≠ none → ps' = {}) ∧
+      ∀ x, r = some x → x.length ≤ 2000 + env.httpDate.length := by
+  obtain ⟨ps', r, h1, h2, h3⟩ := httpRepl_ok env ps d h
+  refine ⟨ps', r, h1, h2, ?_, h3⟩
+  intro hr
+  unfold httpRepl at h1
+  split at h1
+  · cases h1
+  · split at h1
+    · simp only [Except.ok.injEq, Prod.mk.injEq] at h1
+      exact h1.1.symm
+    · simp only [Except.ok.injEq, Prod.mk.injEq] at h1
+      exact absurd h1.2.symm hr
+
 /-- `proto::repl` on at most 65535 bytes from a control block satisfying the invariant: no panic, the
     new control block satisfies the invariant, the reply has at most `7·|d| + 2000 + |date|` bytes -/
 theorem proto_repl_total (cfg : Cfg) (env : Env) (ci : ClientInfo) (tcb : Option Tcb) (d : Bytes)
@@ -225,6 +244,7 @@ end NonVacuity
 #print axioms inv_iff
 #print axioms inv_no_state
 #print axioms http_parse_total
+#print axioms http_repl_total
 #print axioms proto_repl_total
 #print axioms inv_init
 #print axioms inv_step
